@@ -39,7 +39,20 @@ GRID = [-1.0, 0.0, 0.5, 1.0, 1.5, 2.0, 3.0]
 # building and observing the real objects
 # ----------------------------------------------------------------------------------------
 def is_multi_target(t):
-    return t[0] == 'pareto' or (t[0] == 'keeper' and t[1])
+    return t[0] in ('pareto', 'keepersim') or (t[0] == 'keeper' and t[1])
+
+
+def is_keeper_target(t):
+    return t[0] in ('keeper', 'keepersim')
+
+
+# similarity functions a user may construct the containers with
+SIMILAR = {'uid': op_eq,                                   # the containers' default (Individual.__eq__)
+           'same': _individuals_same,                      # the keeper's default
+           'graph': lambda a, b: a.graph == b.graph,       # genotype only: "same structure", no fitness
+           'never': lambda a, b: False,
+           'always': lambda a, b: True}
+COQ_SIM = {'uid': 'SimUid', 'same': 'SimSame', 'graph': 'SimGraph', 'never': 'SimNever', 'always': 'SimAlways'}
 
 
 def make_fitness(spec, multi):
@@ -62,7 +75,15 @@ def make_target(t):
     if t[0] == 'hof':
         return HallOfFame(maxsize=t[1])
     if t[0] == 'pareto':
-        return ParetoFront(maxsize=t[2] or None, similar=_individuals_same if t[1] == 'same' else op_eq)
+        return ParetoFront(maxsize=t[2] or None, similar=SIMILAR[t[1]])
+    if t[0] == 'hofsim':
+        return HallOfFame(maxsize=t[2], similar=SIMILAR[t[1]])
+    if t[0] == 'keepersim':
+        _, sim, k, nq, nc = t
+        objective = Objective(quality_metrics={'q%d' % i: (lambda g: 0.0) for i in range(nq)},
+                              complexity_metrics={'c%d' % i: (lambda g: 0.0) for i in range(nc)},
+                              is_multi_objective=True)
+        return GenerationKeeper(objective, keep_n_best=k, similarity_criteria=SIMILAR[sim])
     _, multi, k, nq, nc = t
     objective = Objective(quality_metrics={'q%d' % i: (lambda g: 0.0) for i in range(nq)},
                           complexity_metrics={'c%d' % i: (lambda g: 0.0) for i in range(nc)},
@@ -76,7 +97,7 @@ def run_impl(case):
     t = tuple(case['target'])
     multi = is_multi_target(t)
     obj = make_target(t)
-    archive = obj.archive if t[0] == 'keeper' else obj
+    archive = obj.archive if is_keeper_target(t) else obj
     objs, canon = {}, {}
     fresh = set(tuple(x) for x in case.get('fresh_copies', []))   # (update no, position): new object, same uid
     obs = []
@@ -92,7 +113,7 @@ def run_impl(case):
                 pop.append(objs[i])
         raised = False
         try:
-            if t[0] == 'keeper':
+            if is_keeper_target(t):
                 obj.append(pop)
             else:
                 obj.update(pop)
@@ -102,7 +123,7 @@ def run_impl(case):
              'uids': [canon[i.uid] for i in archive.items],
              'keys': [[float(v) for v in f.values] if f.valid else [] for f in archive.keys],
              'gen': 0, 'stag': 0, 'any': False, 'qual': False}
-        if t[0] == 'keeper':
+        if is_keeper_target(t):
             o.update(gen=int(obj.generation_num), stag=int(obj.stagnation_iter_count),
                      any=bool(obj.is_any_improved), qual=bool(obj.is_quality_improved))
         obs.append(o)
@@ -118,7 +139,11 @@ def coq_target(t):
     if t[0] == 'hof':
         return '(THof %s)' % c_nat(t[1])
     if t[0] == 'pareto':
-        return '(TPareto %s %s)' % ('SimSame' if t[1] == 'same' else 'SimUid', c_nat(t[2]))
+        return '(TPareto %s %s)' % (COQ_SIM[t[1]], c_nat(t[2]))
+    if t[0] == 'hofsim':
+        return '(THofSim %s %s)' % (COQ_SIM[t[1]], c_nat(t[2]))
+    if t[0] == 'keepersim':
+        return '(TKeeperSim %s %s %s %s)' % (COQ_SIM[t[1]], c_nat(t[2]), c_nat(t[3]), c_nat(t[4]))
     return '(TKeeper %s %s %s %s)' % (c_bool(t[1]), c_nat(t[2]), c_nat(t[3]), c_nat(t[4]))
 
 
@@ -191,7 +216,7 @@ def configs(ctx):
                 kinds.append(dict(vals=None, gclass=0, gen=0))     # a failed evaluation (invalid fitness)
             out.append((('hof', k), kinds))
     for sim in ('uid', 'same'):
-        for cap in (0, 1, 2, 3):
+        for cap in ((0, 2) if (sim == 'same' and ctx.tier == 'quick') else (0, 1, 2, 3)):
             # quick: one objective count per capacity (alternating), thorough: both
             for nobj in ctx.pick((2 + (cap + (sim == 'same')) % 2,), (2, 3)):
                 alpha = PAR[nobj][(s + cap) % len(PAR[nobj])]
@@ -202,6 +227,18 @@ def configs(ctx):
                 else:
                     kinds = [dict(vals=v, gclass=0, gen=0) for v in alpha]
                 out.append((('pareto', sim, cap), kinds))
+    # user-supplied similarity functions: the same structure (graph class) seen under different,
+    # mutually non-dominated vectors, and one vector seen with two structures
+    noisy = [dict(vals=(2.0, 9.0), gclass=1, gen=0), dict(vals=(3.0, 4.0), gclass=0, gen=0),
+             dict(vals=(2.0, 5.0), gclass=0, gen=0), dict(vals=(3.0, 4.0), gclass=1, gen=0)]
+    for sim, cap in ctx.pick([('graph', 0), ('graph', 2), ('never', 0)],
+                             [('graph', 0), ('graph', 2), ('never', 0), ('never', 2), ('always', 0), ('always', 2)]):
+        out.append((('pareto', sim, cap), noisy))
+    out.append((('keepersim', 'graph', 1, 1, 1), noisy[:3]))
+    lex_noisy = [dict(vals=(1.0,), gclass=0, gen=0), dict(vals=(0.5,), gclass=0, gen=0), dict(vals=(0.5,), gclass=1, gen=0)]
+    out.append((('hofsim', 'graph', 2), lex_noisy))      # compared with the model only (see Keeper.in_scope)
+    if ctx.tier != 'quick':
+        out.append((('hofsim', 'uid', 2), lex_noisy))
     for k in (1, 2):
         for nq, nc in ((1, 0), (1, 1), (2, 1)):
             alpha = LEX[nq + nc][(s + k) % len(LEX[nq + nc])]
@@ -231,7 +268,7 @@ def random_case(ctx):
         # many mutually non-dominated vectors: the capacity of the front is reached
         npool = r.randint(5, 14)
         nobj = 2
-        target = r.choice([('pareto', r.choice(['uid', 'same']), r.choice([1, 2, 3, 4, 5])),
+        target = r.choice([('pareto', r.choice(['uid', 'same', 'graph', 'never']), r.choice([1, 2, 3, 4, 5])),
                            ('keeper', True, 1, 1, 1), ('keeper', True, 2, 1, 1)])
         for i in range(npool):
             a = float(r.randint(0, 7))
@@ -241,11 +278,13 @@ def random_case(ctx):
         if style == 'hof':
             target = ('hof', r.randint(1, 4))
         elif style == 'pareto':
-            target = ('pareto', r.choice(['uid', 'same']), r.choice([0, 0, 1, 2, 3, 4, 6]))
+            target = ('pareto', r.choice(['uid', 'same', 'graph', 'never', 'always']), r.choice([0, 0, 1, 2, 3, 4, 6]))
         else:
             nq = r.randint(1, nobj)
             multi = r.random() < 0.5
             target = ('keeper', multi, r.randint(1, 3), nq, nobj - nq)
+            if multi and r.random() < 0.4:
+                target = ('keepersim', r.choice(['graph', 'uid', 'never', 'always']), r.randint(1, 2), nq, nobj - nq)
         for i in range(npool):
             pool.append(dict(uid=i + 1, vals=tuple(r.choice(grid) for _ in range(nobj)), gclass=r.choice([0, 0, 1]),
                              gen=r.choice([0, 0, 1, None])))
@@ -269,7 +308,8 @@ def random_case(ctx):
 
 def front_targets(nobj, i):
     """a direct front and a keeper (front of capacity 5 / 10) for the structured front cases"""
-    direct = [('pareto', 'uid', 0), ('pareto', 'same', 0), ('pareto', 'uid', 5), ('pareto', 'same', 6)][i % 4]
+    direct = [('pareto', 'uid', 0), ('pareto', 'same', 0), ('pareto', 'graph', 0), ('pareto', 'uid', 5),
+              ('pareto', 'same', 6), ('pareto', 'always', 0), ('pareto', 'never', 0)][i % 7]
     nq = 1 + i % (nobj - 1)
     keeper = ('keeper', True, 1 + i % 2, nq, nobj - nq)
     return [direct, keeper]
@@ -329,7 +369,7 @@ def random_wide_case(ctx):
         vecs.append(tuple(x + r.choice([0.0, 0.5, 1.0]) for x in r.choice(base)))
     pool = [dict(uid=i + 1, vals=v, gclass=r.choice([0, 0, 1]), gen=r.choice([0, 1])) for i, v in enumerate(vecs)]
     nq = r.randint(1, nobj - 1)
-    target = r.choice([('pareto', r.choice(['uid', 'same']), r.choice([0, 0, 4, 6, 8])),
+    target = r.choice([('pareto', r.choice(['uid', 'same', 'graph', 'never', 'always']), r.choice([0, 0, 4, 6, 8])),
                        ('keeper', True, r.randint(1, 2), nq, nobj - nq)])
     # mostly: members first, dominating newcomers later; sometimes any order
     idx = list(range(len(pool)))
@@ -382,7 +422,8 @@ def facts(case, obs):
     vals_seen = []
     prev_best = None
     hit_capacity = False
-    cap = t[1] if t[0] == 'hof' else (t[2] if t[0] == 'pareto' else (t[2] * 5 if t[1] else t[2]))
+    cap = {'hof': lambda: t[1], 'hofsim': lambda: t[2], 'pareto': lambda: t[2], 'keepersim': lambda: t[2] * 5,
+           'keeper': lambda: t[2] * 5 if t[1] else t[2]}[t[0]]()
     for p, o in zip(case['pops'], obs):
         empties += (len(p) == 0)
         for i in p:
@@ -396,7 +437,7 @@ def facts(case, obs):
         if cap and len(shown) > cap:
             hit_capacity = True
         best = tuple(o['keys'][-1]) if o['keys'] else None
-        if t[0] == 'keeper' and prev_best is not None and best is not None and lex_better(best, prev_best) and not o['any']:
+        if is_keeper_target(t) and prev_best is not None and best is not None and lex_better(best, prev_best) and not o['any']:
             new_best_unflagged += 1
         prev_best = best
     return dict(shown=len(shown), repeats=repeats, ties=ties, empties=empties, more_than_capacity=hit_capacity,
@@ -534,8 +575,10 @@ def run(ctx):
     ctx.rule = ('a case is a whole update sequence on a real HallOfFame / ParetoFront / GenerationKeeper; exhaustive: every '
                 'sequence (up to renaming of individuals) of U updates with populations of <= P individuals, <= N distinct '
                 'individuals over a 3-letter dyadic fitness alphabet (repeats, ties, empty populations; the observations after '
-                'every prefix are compared), for 12 hall-of-fame, 8 (thorough 16) Pareto-front and 10 keeper configurations '
-                '(k 1..4, capacity 0..3, both similarity functions, 1..3 objectives); quick: U2 P2; thorough: U2 P2, U3 P2 N3 (not for '
+                'every prefix are compared), for 12 hall-of-fame, 9 (thorough 22) Pareto-front and 11 keeper configurations '
+                '(k 1..4, capacity 0..3, 1..3 objectives; similarity = uid equality, _individuals_same, and the user functions same-structure / '
+                'never / always over an alphabet in which one structure has different non-dominated vectors and one vector two structures), '
+                '2 hall-of-fame configurations with a user similarity (compared with the model only); quick: U2 P2; thorough: U2 P2, U3 P2 N3 (not for '
                 'the 4-kind _individuals_same fronts), U2 P3 N3 (hall of fame), U4 P1 N4; random: sequences of <= 30 updates over pools of <= 14 '
                 'individuals incl. anti-chains that fill the front; wide fronts: 3- and 4-objective fronts of 3..5 mutually non-dominated '
                 'permutation vectors, then newcomers (componentwise minima of 2-3 members) dominating non-adjacent members; invalid fitness: the 3-letter alphabet of the 1-objective hall-of-fame configurations has a 4th letter '
@@ -552,7 +595,7 @@ def run(ctx):
     # ---- exhaustive small scope
     # (U updates, P individuals per population, N distinct individuals, which configurations)
     every = lambda t: True
-    three_kinds = lambda t: not (t[0] == 'pareto' and t[1] == 'same')
+    three_kinds = lambda t: not (t[0] == 'pareto' and t[1] != 'uid')
     hof_only = lambda t: t[0] == 'hof'
     scopes = ctx.pick([((2, 2, 4), every)],
                       [((2, 2, 4), every), ((3, 2, 3), three_kinds), ((2, 3, 3), hof_only), ((4, 1, 4), every)])
